@@ -56,6 +56,8 @@ def build_op(d):
         dest <<= rom[ra]
     else:
         raise ValueError(op)
+    if d.get('spare'):
+        pyrtl.Input(d['spare'], 'spare')   # declared but unread Input (legal; must stay part of the interface)
     return b
 
 
@@ -464,6 +466,21 @@ def build_misc(d):
         for i, e in enumerate(outs[:d.get('n', 6)]):
             o = pyrtl.Output(len(e), 'o%d' % i)
             o <<= e
+    elif k == 'same_net_fanout':
+        # a wire read several times by ONE net and by no other
+        a, c = pyrtl.Input(w, 'a'), pyrtl.Input(w, 'b')
+        t = a ^ c
+        o = pyrtl.Output(3 * w, 'o')
+        o <<= pyrtl.concat(t, t, t)
+        u = a & c
+        o2 = pyrtl.Output(1, 'o2')
+        o2 <<= pyrtl.select(u[0], u[0], u[0]) if w == 1 else pyrtl.select(u[0], u, u)[0]
+        m = pyrtl.MemBlock(bitwidth=1, addrwidth=1, name='m', asynchronous=True)
+        x = pyrtl.Input(1, 'x')
+        y = ~x
+        m[y] <<= pyrtl.MemBlock.EnabledWrite(y, y)
+        o3 = pyrtl.Output(1, 'o3')
+        o3 <<= m[x]
     elif k == 'wide_concat':
         ws = d.get('ws', [1, 2, 3, 1])
         ins = [pyrtl.Input(x, 'a%d' % i) for i, x in enumerate(ws)]
@@ -478,7 +495,8 @@ def build_misc(d):
 
 def misc_cases():
     out = []
-    for k in ('dead_memwrite', 'slices', 'wire_chain', 'in_to_out', 'reg_to_out', 'mem_to_out', 'fanout', 'wide_concat'):
+    for k in ('dead_memwrite', 'slices', 'wire_chain', 'in_to_out', 'reg_to_out', 'mem_to_out', 'fanout', 'wide_concat',
+              'same_net_fanout'):
         for w in (1, 3):
             out.append({'fam': 'MISC', 'kind': k, 'w': w})
     out.append({'fam': 'MISC', 'kind': 'reg_to_out', 'w': 3, 'rv': 5})
